@@ -194,14 +194,14 @@ package sarama
 //@   returns sub, err
 //@   requires pd.remaining() >= 0
 //@   ensures[state] 0 <= pd.remaining() && pd.remaining() <= old(pd.remaining())
-//@   ensures[sub] err == nil ==> sub != nil && sub.remaining() == length && 0 <= length && pd.remaining() == old(pd.remaining()) - length
+//@   ensures[sub] err == nil ==> sub != nil && fresh(sub) && sub.remaining() == length && 0 <= length && pd.remaining() == old(pd.remaining()) - length
 //@   modifies pd.*
 
 //@ func (pd packetDecoder) peek(offset, length) props C10
 //@   returns sub, err
 //@   requires pd.remaining() >= 0 && 0 <= offset && offset <= 4294967296 && 0 <= length && length <= 4294967296
 //@   ensures[state] pd.remaining() == old(pd.remaining())
-//@   ensures[sub] err == nil ==> sub != nil && sub.remaining() == length && offset + length <= pd.remaining()
+//@   ensures[sub] err == nil ==> sub != nil && fresh(sub) && sub.remaining() == length && offset + length <= pd.remaining()
 //@   modifies nothing
 
 //@ func (pd packetDecoder) peekInt8(offset) props C10
@@ -784,10 +784,14 @@ package sarama
 
 //@ func decode(buf, in) props C10
 //@   returns err
+//@   ensures[all_consumed] err == nil && !isnil(buf) ==> helper.off == len(buf)
+//@   decoder_frame
 //@   nosafety
 
 //@ func versionedDecode(buf, in, version) props C10
 //@   returns err
+//@   ensures[all_consumed] err == nil && !isnil(buf) ==> helper.off == len(buf)
+//@   decoder_frame
 //@   nosafety
 
 // ---------------------------------------------------------------------------------------------
@@ -1318,3 +1322,18 @@ package sarama
 //@   modifies nothing
 //@ func (p *asyncProducer) abandonBrokerConnection(broker) trusted
 //@   modifies nothing
+
+// ---------------------------------------------------------------------------------------------
+// whole-buffer consumption (C10: a length that disagrees with the data is an error)
+
+//@ ghost field RecordBatch.recordsChecked int
+
+//@ func (b *RecordBatch) decode(pd) props C10
+//@   returns err
+//@   requires pd.remaining() >= 0 && b.recordsChecked == 0
+//@   ensures[state] 0 <= pd.remaining() && pd.remaining() <= old(pd.remaining())
+//@   callsite pkg.decode: modifies b.recordsChecked
+//@   callsite pkg.decode: effect b.recordsChecked == 1
+//@   callsite pkg.decode: requires[records_payload] $buf == recBuffer
+//@   ensures[records_fully_consumed] err == nil && !b.PartialTrailingRecord ==> b.recordsChecked == 1
+//@   decoder_frame
